@@ -8,7 +8,7 @@
    semantics on the five regions, in_contract the documented argument ranges, wf_mem the
    region sizes and byte-ness. *)
 From PV Require Import Base.Prelude Model.Accessors Spec.PlainMem
-  Proofs.AccessorsBase Proofs.AccessorsSimple Proofs.AccessorsLoops Proofs.C17Proofs.
+  Proofs.AccessorsBase Proofs.AccessorsSimple Proofs.AccessorsLoops Proofs.C17Proofs Proofs.AccessorsGrid.
 
 (* one call: for EVERY well-formed memory and EVERY in-contract call of any of the 18
    accessors (any id / coordinates / offsets, rows of any number, length and raggedness, any
@@ -86,6 +86,33 @@ Theorem C17_changet_after_chanset : forall s id ch pat, wf_mem s -> in_contract 
   snd (spec_step (fst (spec_step s (ChanSet id ch pat))) (ChanGet id ch)) = VOptInt pat.
 Proof. exact changet_after_chanset. Qed.
 Print Assumptions C17_changet_after_chanset.
+
+(* the two block writes, cell by cell: after set_sprite EVERY pixel (X, Y) of the 128 x 128 sheet
+   holds the sprite's value at offset (X - first_x, Y - first_y) if the (ragged) sprite data has
+   a non-TRANSPARENT value there, and its old value otherwise - read-back, frame, transparency
+   and clipping (nothing wraps: the equation is per pixel) in one statement. grid_at
+   (Proofs/AccessorsGrid.v) looks a value up in a list of rows. *)
+Theorem C17_set_sprite_pixels : forall g id xo yo rows X Y,
+  zlen g = 8192 -> Forall byte g -> in_contract (SetSprite id xo yo rows) = true ->
+  0 <= X <= 127 -> 0 <= Y <= 127 ->
+  get_px (spec_set_sprite g id xo yo rows) X Y =
+  match grid_at is_transparent rows (X - (id mod 16 * 8 + xo)) (Y - (id / 16 * 8 + yo)) with
+  | Some v => v
+  | None => get_px g X Y
+  end.
+Proof. exact set_sprite_pixels. Qed.
+Print Assumptions C17_set_sprite_pixels.
+
+(* likewise every cell of the 128 x 64 map after set_rect_tiles, rows 32-63 read through
+   sprite memory *)
+Theorem C17_set_rect_cells : forall m g x y rows X Y,
+  zlen m = 4096 -> zlen g = 8192 -> Forall byte m -> Forall byte g ->
+  in_contract (MapSetRect x y rows) = true -> 0 <= X <= 127 -> 0 <= Y <= 63 ->
+  let st := spec_set_rect (m, g) x y rows in
+  get_cell (fst st) (snd st) X Y =
+  match grid_at no_transparent rows (X - x) (Y - y) with Some v => v | None => get_cell m g X Y end.
+Proof. exact set_rect_cells. Qed.
+Print Assumptions C17_set_rect_cells.
 
 (* non-vacuity: a concrete sprite stored at the bottom right corner, crossing both edges:
    sprite 255 with offsets (5, 6) starts at pixel (125, 126); column 128 and row 128 are
